@@ -205,6 +205,36 @@ class NsConcWorld(World):
             return {"storage": storage, "init": init, "threads": threads,
                     "p_line": rng.choice([0.1, 0.2, 0.35]) if storage == "memory" else rng.choice([0.3, 0.5]),
                     "p_block": rng.choice([0.2, 0.5, 1.0])}
+        if rng.random() < 0.15:
+            # focused shape: repeated reads of one name racing writes to it (stale / torn reads)
+            n = rng.choice(names)
+            init = [{"op": "register", "name": x, "uri": uri(), "safe": False, "meta": meta()} for x in names if rng.random() < 0.8 or x == n]
+
+            def rd():
+                r = rng.random()
+                if r < 0.6:
+                    return {"op": "lookup", "name": n, "meta": rng.random() < 0.5}
+                if r < 0.85:
+                    return {"op": "list", "prefix": rng.choice([None, "a."]), "meta": rng.random() < 0.5}
+                return {"op": "count"}
+
+            def wr():
+                r = rng.random()
+                if r < 0.35:
+                    return {"op": "remove", "name": n}
+                if r < 0.7:
+                    return {"op": "register", "name": n, "uri": uri(), "safe": rng.random() < 0.4, "meta": meta()}
+                if r < 0.85:
+                    return {"op": "set_metadata", "name": n, "meta": meta()}
+                return {"op": "remove", "prefix": "a"}
+            threads = [[rd(), rd()], [wr()] + ([rd()] if rng.random() < 0.5 else [])]
+            for _ in range(nthreads - 2):
+                threads.append([wr() if rng.random() < 0.5 else rd()])
+            while len(threads) < 4:
+                threads.append([])
+            return {"storage": storage, "init": init, "threads": threads,
+                    "p_line": rng.choice([0.1, 0.2, 0.35]) if storage == "memory" else rng.choice([0.3, 0.5]),
+                    "p_block": rng.choice([0.2, 0.5, 1.0])}
         threads = []
         budget = 8
         for _ in range(nthreads):
